@@ -100,8 +100,12 @@ impl BBSplusPublicKey {
     ///
     /// * `Result<Self, Error>` - A result containing the `BBSplusPublicKey` or an error.
     pub fn from_bytes(bytes: &[u8]) -> Result<Self, Error> {
-        let g2 = parse_g2_projective_compressed(&bytes[0..G2Affine::COMPRESSED_BYTES])
-            .map_err(|_| Error::KeyDeserializationError)?;
+        let g2 = parse_g2_projective_compressed(
+            bytes
+                .get(0..G2Affine::COMPRESSED_BYTES)
+                .ok_or(Error::KeyDeserializationError)?,
+        )
+        .map_err(|_| Error::KeyDeserializationError)?;
         Ok(Self(g2))
     }
 }
